@@ -129,7 +129,9 @@ def write_evidence(pid, tier, seed, results, wall, note=None, mod=None, work=Non
         'transitions': max(1, sum(r['blocks'] for r in results)),
         'traces_validated_against_impl': nrep,
         'samples': samples[:40],
-        'obligations': [{'name': r['name'], 'paths': r['paths'], 'sat': r['sat'], 'unsat': r['unsat'],
+        'obligations': len(results),
+        'discharged': sum(1 for r in results if not r['violations'] and not r['unknowns'] and not r['gaps']),
+        'obligation_list': [{'name': r['name'], 'paths': r['paths'], 'sat': r['sat'], 'unsat': r['unsat'],
                          'unknown': r['unknown'], 'violations': len(r['violations']), 'gaps': r['gaps'],
                          'witnesses': [w['label'] for w in r['witnesses']], 'wall_s': round(r['wall'], 2),
                          'solver_s': round(r['solver_s'], 2), 'notes': r['notes'], 'bounds': r['bounds']}
